@@ -25,6 +25,9 @@ mod c18_vsockconn;
 mod vsock_world;
 mod c15_console;
 mod c19_events;
+mod c08_init;
+mod c08_mmio;
+mod c09_drop;
 
 use proto::RunResult;
 use runner::{Ctx, Tier};
@@ -43,6 +46,7 @@ fn main() {
     runner::install_panic_hook();
     match args[1].as_str() {
         "consts" => print!("{}", c06_layout::consts_lean()),
+        "features" => print!("{}", c08_init::features_lean()),
         "run" => {
             if args.len() < 3 {
                 usage();
@@ -109,6 +113,8 @@ fn main() {
                 "C18" => c18_vsockconn::run(&ctx),
                 "C15" => c15_console::run(&ctx),
                 "C19" => c19_events::run(&ctx),
+                "C08" => c08_init::run(&ctx),
+                "C09" => c09_drop::run(&ctx),
                 _ => {
                     eprintln!("unknown property {}", prop);
                     std::process::exit(2)
